@@ -769,6 +769,12 @@ func (it *Interp) convert(fr *frame, st *AState, x *ssa.Convert) *AVal {
 
 // ---- memory
 
+// ByteArrayLen reports the length of a [N]byte (or *[N]byte) type.
+func ByteArrayLen(t types.Type) (int64, bool) {
+	n, ok := isByteArray(t)
+	return int64(n), ok
+}
+
 func isByteArray(t types.Type) (int, bool) {
 	if p, ok := t.Underlying().(*types.Pointer); ok {
 		t = p.Elem()
